@@ -166,6 +166,17 @@ def check_dt_list(res, types, sa=3, as_int=False):
     if kind != "return" or val != sorted(types):
         add_violation(res, "C08:QueryDeviceTypes:conforming-unit", f"unit {sa} (int form: {as_int}) with device types {types}: {kind} {val!r}",
                       {"t": "dtlist", "types": list(types), "sa": sa, "as_int": as_int})
+    elif isinstance(val, list):
+        # the list belongs to the caller (who may extend / sort it while surveying several units): the same query again,
+        # of an identical fresh unit, still reports exactly the unit's list
+        val.extend([6, 1, 250])
+        val.reverse()
+        bus2 = G.Bus([G.Gear(short=sa, devicetypes=types), G.Gear(short=(sa + 1) % 64, devicetypes=[2, 3])])
+        kind2, val2, n2 = G.run_sequence(QueryDeviceTypes(spell(GearShort, as_int, sa)), bus2, CAP)
+        res["transitions"] += n2
+        if kind2 != "return" or val2 != sorted(types) or val2 is val:
+            add_violation(res, "C08:QueryDeviceTypes:result-shared-between-calls", f"unit {sa} with device types {types}: the first result was extended by the caller; "
+                          f"the same query again: {kind2} {val2!r}", {"t": "dtlist", "types": list(types), "sa": sa, "as_int": as_int})
     return kind
 
 
@@ -194,6 +205,8 @@ def check_qgroups(res, mask, fault=None, sa=7, as_int=False):
             add_violation(res, "C08:QueryGroups:fault-not-reported", f"groups {mask:#06x} fault {fault}: {kind} {val!r}", case)
     elif kind != "return" or val != groups_of(mask):
         add_violation(res, "C08:QueryGroups:wrong-set", f"unit in groups {sorted(groups_of(mask))}: {kind} {val!r}", case)
+    elif isinstance(val, set):
+        val.update({0, 15, 99})                 # the caller's own set from now on: a later query must not see it
 
 
 def check_setgroups(res, dest, emask, rmask, fault=None, sa=5, GSEL=3):
